@@ -174,7 +174,11 @@ type tableXML struct {
 	Name      string        `xml:"name,attr"`
 	StyleName string        `xml:"style-name,attr"`
 	Columns   []tableColXML `xml:"table-column"`
-	Rows      []tableRowXML `xml:"table-row"`
+	// Rows inside <table:table-header-rows> (repeated heading rows; what
+	// LibreOffice writes when "Heading" is ticked in Insert Table). They
+	// precede the other rows.
+	HeaderRows []tableRowXML `xml:"table-header-rows>table-row"`
+	Rows       []tableRowXML `xml:"table-row"`
 }
 
 // tableColXML represents a table column definition.
